@@ -209,7 +209,7 @@ IndexInto(c, iv, st) ==      \* c: Text or list value, iv: index value
     ELSE LET i == SmallIdx(iv)
          IN  IF i < 1 \/ i > Len(c.v) THEN RErr(st) ELSE R(IF c.k = "T" THEN CV(c.v[i]) ELSE c.v[i], st)
 
-RECURSIVE EvalK1(_,_,_,_), EvalK2(_,_,_,_), EvalK3(_,_,_,_), EvalK4(_,_,_,_), EvalK5(_,_,_,_), EvalK6(_,_,_,_), EvalK7(_,_,_,_), EvalK8(_,_,_,_), EvalK9(_,_,_,_), EvalK10(_,_,_,_), EvalK11(_,_,_,_), EvalK12(_,_,_,_), EvalK13(_,_,_,_), EvalK14(_,_,_,_)
+RECURSIVE EvalK1(_,_,_,_), EvalK2(_,_,_,_), EvalK3(_,_,_,_), EvalK4(_,_,_,_), EvalK5(_,_,_,_), EvalK6(_,_,_,_), EvalK7(_,_,_,_), EvalK8(_,_,_,_), EvalK9(_,_,_,_), EvalK10(_,_,_,_), EvalK11(_,_,_,_), EvalK12(_,_,_,_), EvalK13(_,_,_,_), EvalK14(_,_,_,_), EvalK15(_,_,_,_)
 EvalK1(P, e, env, st) ==
     R(e.v, st)
 
@@ -301,6 +301,12 @@ EvalK13(P, e, env, st) ==
 EvalK14(P, e, env, st) ==
     CallFn(P, e, env, st)
 
+\* the current value of an assignable (used by the compound assignments, which are defined by their expansion)
+EvalK15(P, e, env, st) ==
+    LET r == EvalLv(P, e.lv, env, st)
+    IN  IF ~Ok(r.st) THEN R(U, r.st)
+        ELSE LET v == Read(r.st, r.ref) IN IF IsU(v) THEN RU(r.st) ELSE R(v, r.st)
+
 Eval(P, e, env, st) ==
     CASE e.k = "lit" -> EvalK1(P, e, env, st)
       [] e.k = "id" -> EvalK2(P, e, env, st)
@@ -316,6 +322,7 @@ Eval(P, e, env, st) ==
       [] e.k = "list" -> EvalK12(P, e, env, st)
       [] e.k = "new" -> EvalK13(P, e, env, st)
       [] e.k = "call" -> EvalK14(P, e, env, st)
+      [] e.k = "lvr" -> EvalK15(P, e, env, st)
 
 (* reference denoted by an assignable: [ref, st]; an out-of-range index is a Laufzeitfehler *)
 RECURSIVE EvalLvK1(_,_,_,_), EvalLvK2(_,_,_,_), EvalLvK3(_,_,_,_)
@@ -430,7 +437,7 @@ EachLoop(P, s, env, st, c, i) ==      \* c: private copy of the iterated Text/li
 
 Declare(env, st, n, v, global) == [env |-> Bind(env, n, Ref(NewLoc(st), <<>>), global), st |-> Alloc(st, v)]
 
-RECURSIVE ExecK1(_,_,_,_), ExecK2(_,_,_,_), ExecK3(_,_,_,_), ExecK4(_,_,_,_), ExecK5(_,_,_,_), ExecK6(_,_,_,_), ExecK7(_,_,_,_), ExecK8(_,_,_,_), ExecK9(_,_,_,_), ExecK10(_,_,_,_), ExecK11(_,_,_,_), ExecK12(_,_,_,_), ExecK13(_,_,_,_), ExecK14(_,_,_,_), ExecK15(_,_,_,_)
+RECURSIVE ExecK1(_,_,_,_), ExecK2(_,_,_,_), ExecK3(_,_,_,_), ExecK4(_,_,_,_), ExecK5(_,_,_,_), ExecK6(_,_,_,_), ExecK7(_,_,_,_), ExecK8(_,_,_,_), ExecK9(_,_,_,_), ExecK10(_,_,_,_), ExecK11(_,_,_,_), ExecK12(_,_,_,_), ExecK13(_,_,_,_), ExecK14(_,_,_,_), ExecK15(_,_,_,_), ExecK16(_,_,_,_)
 ExecK1(P, s, env, st) ==
     LET r == IF s.e.k = "fill"
                     THEN LET q == EvalSeq(P, <<s.e.n, s.e.v>>, 1, env, st)
@@ -521,6 +528,17 @@ ExecK14(P, s, env, st) ==
 ExecK15(P, s, env, st) ==
     Block(P, s.body, env, st)
 
+(* compound assignments are defined by their expansion (src/parser/statements.go compoundAssignement):
+   Erhöhe / Verringere / Vervielfache x um e, Teile x durch e, Verschiebe x um e Bit nach links / rechts  ==  Speichere (x op e) in x
+   Negiere x  ==  Speichere (nicht x) in x for a Wahrheitswert, Speichere (-x) in x otherwise                                     *)
+ExecK16(P, s, env, st) ==
+    LET cur == [k |-> "lvr", lv |-> s.lv]
+        old == EvalK15(P, cur, env, st)
+        rhs == IF s.op = "neg"
+               THEN [k |-> "un", op |-> (IF Ok(old.st) /\ ~IsU(old.v) /\ old.v.k = "W" THEN "not" ELSE "neg"), r |-> cur]
+               ELSE [k |-> "bin", op |-> s.op, l |-> cur, r |-> s.e]
+    IN  ExecK2(P, [k |-> "set", lv |-> s.lv, e |-> rhs], env, st)
+
 Exec(P, s, env, st) ==
     CASE s.k = "var" -> ExecK1(P, s, env, st)
       [] s.k = "set" -> ExecK2(P, s, env, st)
@@ -537,6 +555,7 @@ Exec(P, s, env, st) ==
       [] s.k = "ret" -> ExecK13(P, s, env, st)
       [] s.k = "todo" -> ExecK14(P, s, env, st)
       [] s.k = "block" -> ExecK15(P, s, env, st)
+      [] s.k = "cset" -> ExecK16(P, s, env, st)
 
 (* the whole program: [out, sig]  sig = "ok" (exit 0) | "rterr" (Laufzeitfehler, exit 1) | "unspec" *)
 Run(P, fuel) ==
